@@ -85,6 +85,7 @@ def run(rep):
     prog = mir.Program(fdir, crates=["aldrin_parser"])
     tab = tomllib.load(open(os.path.join(engine.VERIF, "tables", "c18.toml"), "rb"))
     exc = {e["accessor"]: e["reason"] for e in tab["exception"]}
+    partial = set(e["accessor"] for e in tab["exception"] if e.get("partial"))
     acc = {}
     for d, b in prog.bodies.items():
         st = b.impl_self or ""
@@ -142,6 +143,10 @@ def run(rep):
             how = cov.get((X, m), set())
             emitted = any(h.startswith("emit:") for h in how)
             if d in exc:
+                # a derived / partial view must not be what gets printed: printing `NamedRef::ident()` instead of the whole
+                # reference silently drops the schema qualifier of an external reference
+                rep.check(not (emitted and d in partial), "C18-R1", d, "partial-view-not-printed", "the formatter prints the derived view %s::%s() (%s); tables/c18.toml lists it as a partial view of data that must be printed through the complete accessor — the rest of the datum is dropped" % (X.replace(AST, ""), m, exc[d]),
+                          detail={"uses": sorted(how)})
                 rep.ok("C18-R1", "%s:excepted" % d, {"reason": exc[d]}, nontrivial=False, sample=False)
                 # an exception that became unnecessary is fine; one that hides nothing is harmless
                 continue
